@@ -621,7 +621,10 @@ func Yield(desc string) {
 
 // Await blocks the running task until pred holds.
 func Await(desc string, pred func() bool) {
-	W.yield(pendingOp{kind: opAwait, enabled: pred, desc: desc})
+	w := W
+	w.yield(pendingOp{kind: opAwait, enabled: pred, desc: desc})
+	// the predicate read shared state: make that observation part of the task's history
+	w.cur.h = mix(w.cur.h, 0x72, w.globalHash())
 }
 
 // AwaitN is Await with a numeric argument shown in traces (avoids formatting on the hot path).
